@@ -30,4 +30,9 @@ try:
         print(sid, c, 'CAUGHT' if r['caught'] else 'MISSED rc=%d' % p.returncode, r['wall_s'], first[:200])
 finally:
     subprocess.run(['git', '-C', '/repo', 'worktree', 'remove', '--force', wt])
+    # the build output and work directories of the scratch tree go with it
+    import re, shutil
+    tag = re.sub(r'[^A-Za-z0-9]+', '_', wt).strip('_')
+    shutil.rmtree('/verif/bin/alt-' + tag, ignore_errors=True)
+    shutil.rmtree('/verif/.work/alt-' + tag, ignore_errors=True)
     json.dump(meta, open(os.path.join(d, 'meta.json'), 'w'), indent=1)
